@@ -12,7 +12,8 @@ PROPERTY = "C01"
 LEVEL = "exploration"
 RULE = ("seeded call trees: each node is assigned to peer A or B, has 0-4 children called in order (sync or async), "
         "positional and keyword arguments drawn from shapes {plain scalar, nested tuple mixing values and references, "
-        "list/dict/object reference, callable that the callee invokes, reference received from the caller passed on}, may "
+        "list/dict/object reference, callable that the callee invokes, reference received from the caller passed on, one falsy "
+        "object supplied several times in one call}, may "
         "raise a built-in exception (Exception subclasses, and GeneratorExit / BaseException which are not) after its children ran "
         "and may catch a (base) class from its children; depth <= 8 "
         "quick / <= 30 thorough. distinct = canonical tree shape (peers, fan-out, raise/catch, arg shapes); non-trivial = "
@@ -32,7 +33,8 @@ def _program_exception(e):
     """exceptions the generated programs raise (everything else - harness watchdogs, interrupts - passes through)"""
     return not isinstance(e, (vnet.Stalled, KeyboardInterrupt, SystemExit))
 REFSHAPES = ("list", "dict", "obj", "callable")      # shapes that may be passed on
-SHAPES = ["scalar", "scalar", "tuple_mixed", "list", "dict", "obj", "callable", "passon", "tuple_plain", "nested_ref_tuple", "cls", "boundmethod"]
+SHAPES = ["scalar", "scalar", "tuple_mixed", "list", "dict", "obj", "callable", "passon", "tuple_plain", "nested_ref_tuple", "cls", "boundmethod",
+          "same_twice"]
 
 
 class Tok(object):
@@ -47,6 +49,18 @@ class Tok(object):
     def bump(self, k):
         self.n += k
         return (self.tag, self.n)
+
+
+class Quiet(object):
+    """an object that is falsy and empty; being asked for its length or truth is an observable invocation on its owner"""
+
+    def __init__(self, world, tag):
+        self.world = world
+        self.tag = tag
+
+    def __len__(self):
+        self.world.cb_calls["len:" + self.tag] = self.world.cb_calls.get("len:" + self.tag, 0) + 1
+        return 0
 
 
 def gen_program(rng, max_depth):
@@ -145,6 +159,9 @@ def summ(x, shape, invoke=True):
         return ("tm", type(x) is tuple and len(x), x[0], rc.fingerprint(x[1][0]), x[2][0], rc.fingerprint(x[2][1].tag), x[3])
     if shape == "nested_ref_tuple":
         return ("nrt", type(x) is tuple, type(x[0]) is tuple, rc.fingerprint(x[0][0][0][0]), rc.fingerprint(x[1]["tok"]))
+    if shape == "same_twice":
+        # one object supplied twice in one call: the callee must see ONE object (x[0] is x[1] in a single process)
+        return ("same_twice", x[0] is x[1], x[1] is x[2][0], rc.fingerprint(x[0].tag), x[3] is x[4])
     if shape == "none":
         return ("none", x is None)
     raise AssertionError(shape)
@@ -234,6 +251,9 @@ class Worker(object):
             return {"tok": rng_tag}
         if shape == "obj":
             return Tok(rng_tag)
+        if shape == "same_twice":
+            q, e = Quiet(w, rng_tag), []
+            return (q, q, (q, 1), e, e)
         if shape == "cls":
             return Tok
         if shape == "boundmethod":
